@@ -33,10 +33,10 @@ type caseSpec struct {
 	Close string `json:"close,omitempty"`
 	// abort: the client stops after exactly K bytes written to the socket. K is given relative to a
 	// landmark of the recorded uncut session of the same configuration (resolved at run time).
-	Cut  string `json:"cut,omitempty"`      // fin | rst
-	KRel string `json:"cut_rel,omitempty"`  // abs | hello | finished | end | permille | never
-	KOff int    `json:"cut_off,omitempty"`  // offset to the landmark (or the permille)
-	K    int    `json:"cut_at_byte"`        // resolved
+	Cut  string `json:"cut,omitempty"`     // fin | rst
+	KRel string `json:"cut_rel,omitempty"` // abs | hello | finished | end | permille | never
+	KOff int    `json:"cut_off,omitempty"` // offset to the landmark (or the permille)
+	K    int    `json:"cut_at_byte"`       // resolved
 	// raw kinds: bytes sent instead of a ClientHello
 	Payload string `json:"payload_hex,omitempty"`
 	// capturefail: record-layer version written into the ClientHello record header
@@ -91,7 +91,9 @@ var (
 	calib   = map[string]calibT{}
 )
 
-func cfgKey(c *caseSpec) string { return fmt.Sprintf("%s|tls12=%v", strings.Join(c.ALPN, ","), c.TLS12) }
+func cfgKey(c *caseSpec) string {
+	return fmt.Sprintf("%s|tls12=%v", strings.Join(c.ALPN, ","), c.TLS12)
+}
 
 func getCalib(c *caseSpec) (calibT, bool) {
 	calibMu.Lock()
